@@ -103,6 +103,28 @@ def run(ctx, b, broken):
                          {"history": calls[:i + 1]})
         elif len(ctx.samples) < 3 and leaky:
             ctx.sample({"history": [c[:80] for c in calls]})
+    # the same text twice on one instance, the first result edited in place in between: the second result is what a fresh
+    # parser gives (a result object is never handed out twice)
+    import semgen as _sg
+    from pycparser import c_ast as _ca, c_parser as _cp
+    for text in ["int a; int b;", "void f(void){ x = 1; }", "typedef int T; T t; struct S { T m; } s;"] + _sg.SEMZOO[:6]:
+        ctx.evaluations += 1
+        ctx.count("suite:same-text-twice-after-edit")
+        try:
+            ref = show_ast(_cp.CParser().parse(text, "same.c"), True)
+            pz = _cp.CParser()
+            r1 = pz.parse(text, "same.c")
+            r1.ext.reverse()
+            r1.ext.append(_ca.EmptyStatement())
+            for e_ in r1.ext:
+                if hasattr(e_, "name") and isinstance(getattr(e_, "name", None), str):
+                    e_.name = e_.name + "_edited"
+            r2 = pz.parse(text, "same.c")
+        except Exception as ex_:
+            su.violation(text, f"parsing the same text twice on one instance raised {type(ex_).__name__}: {ex_}")
+            continue
+        if r2 is r1 or show_ast(r2, True) != ref:
+            su.violation(text, "the second parse of the same text on one instance does not give what a fresh parser gives (the first result had been edited in place)")
     # reused lexer
     from lexcorr import impl_lex_items, random_string
     for _ in range(300 if ctx.tier == "quick" else 4000):
